@@ -85,6 +85,7 @@ func runGated(g gatedCase, run int, dir string, rng *rand.Rand) ([]map[string]an
 	base := filepath.Join(dir, fmt.Sprintf("g%d-%d", run, fileSeq.Add(1))) // never reuse a name: goroutines of an aborted run may still be draining
 	file := base + ".sqlite3"
 	defer os.Remove(file)
+	defer closeRaw()
 	var tables []tableSpec
 	for _, t := range g.Tables {
 		tables = append(tables, tableSpec{t, "ge"})
@@ -102,6 +103,19 @@ func runGated(g gatedCase, run int, dir string, rng *rand.Rand) ([]map[string]an
 	dr.VerifGate = c.gate
 	defer func() { dr.VerifGate = nil }()
 	c.log = append(c.log, map[string]any{"e": "start", "run": run, "batch": g.Batch, "init": g.Init})
+	// the model's location names stand for real strings; in two runs out of three one of them is the EMPTY string
+	// (the zero value of the column's Go type), in the others an awkward one
+	real := map[string]string{"a": "a", "b": "b", "c": "c"}
+	switch k := rng.Intn(9); {
+	case k < 6:
+		real[[]string{"a", "b", "c"}[k%3]] = ""
+	case k < 8:
+		real[[]string{"a", "b", "c"}[k%3]] = "it's \"日本\"\x00;--"
+	}
+	model := map[string]string{}
+	for m, r := range real {
+		model[r] = m
+	}
 	inserted := map[string][]any{}
 	for _, name := range insNames {
 		es, ok := g.Prog[name]
@@ -110,7 +124,7 @@ func runGated(g gatedCase, run int, dir string, rng *rand.Rand) ([]map[string]an
 		}
 		for _, e := range es {
 			if !e.Create {
-				inserted[e.Tab] = append(inserted[e.Tab], GE{ID: e.ID, Who: name, Loc: e.Loc, Skip: e.ID * 7})
+				inserted[e.Tab] = append(inserted[e.Tab], GE{ID: e.ID, Who: name, Loc: real[e.Loc], Skip: e.ID * 7})
 			}
 		}
 		name := name
@@ -124,7 +138,7 @@ func runGated(g gatedCase, run int, dir string, rng *rand.Rand) ([]map[string]an
 					c.setCreated(e.Tab)
 					continue
 				}
-				rec.InsertData(e.Tab, GE{ID: e.ID, Who: name, Loc: e.Loc, Skip: e.ID * 7})
+				rec.InsertData(e.Tab, GE{ID: e.ID, Who: name, Loc: real[e.Loc], Skip: e.ID * 7})
 			}
 		})
 	}
@@ -263,6 +277,13 @@ func runGated(g gatedCase, run int, dir string, rng *rand.Rand) ([]map[string]an
 	if err != nil {
 		res.CloseErr = "raw read: " + err.Error()
 		return end(empty, [][2]any{}), res
+	}
+	for i := range locs { // back to the model's names for the trace
+		if m, ok := model[locs[i][1].(string)]; ok {
+			locs[i][1] = m
+		} else {
+			locs[i][1] = fmt.Sprintf("?%d", i)
+		}
 	}
 	return end(rows, locs), res
 }
